@@ -401,6 +401,18 @@ Record prow := {
   p_acc_iter : bool; p_acc_int : bool; p_acc_str : bool; p_acc_none : bool;
   p_limiting : bool }.
 
+(* one smart-type combinator instance over the collection types (AnyOf, Chain, nested, nullable,
+   with NotOfType members ...), probed on the live type: does it accept a generator / a sized
+   tuple, does its convert limit (<= N+1 pulls then CollectionTooLarge; a sized N+1 refused, a sized
+   N returned unchanged) and check the quota *)
+Record crow := {
+  c_label : str; c_acc_iter : bool; c_limiting : bool;
+  c_acc_sized : bool; c_sized_refused : bool; c_sized_ok : bool; c_quota_ok : bool }.
+
+Definition crow_ok (c : crow) : bool :=
+  implb (c_acc_iter c) (c_limiting c)
+  && implb (c_acc_sized c) (c_sized_refused c && c_sized_ok c && c_quota_ok c).
+
 Definition is_eager (p : prow) : bool := match p_kind p with PEager => true | _ => false end.
 (* declared with a collection type: takes a generator object but refuses the scalar 1
    (whether or not it also takes a string: the bare Iterable ABC does, and is still a
